@@ -74,7 +74,10 @@ def check(run, driver):
     if not d:
         run.extra["translator"] = "UNTRANSLATABLE (" + "; ".join(notes) + ") -- the source no longer has a shape the AST translator recognises; the table obligation is not established on this run and the property is decided by the correspondence alone (DESIGN.md §2.4)"
     else:
-        run.oblige("ObC07 a fresh generator is created inside discover_network from an integer literal (AST)", isinstance(d["seed"], int), repr(d["seed"]))
+        if isinstance(d["seed"], int):
+            run.oblige("ObC07 a fresh generator is created inside discover_network from an integer literal (AST)", True, repr(d["seed"]))
+        else:
+            run.extra["translator_seed"] = "generator creation from an integer literal not recognised textually in discover_network; decided by the observed stream (must be that of a fresh default_rng(42)) below"
         run.oblige("ObC07 no global np.random.<fn> / random.<fn> call and no module-level generator in the discovery module (AST)",
                    not d["global_rng_calls"] and not d["module_level_rng"], repr(d["global_rng_calls"] + d["module_level_rng"]))
     # ---- (i) stream observation with the scripted estimator + model replay
